@@ -39,6 +39,8 @@ impl Parser {
         self.previous = self.current.clone();
         self.current = self.peek_next.clone();
         self.peek_next = self.scanner.next_token();
+        #[cfg(p2sh_verif)]
+        crate::verif::on_token();
     }
 
     fn prev_token_is(&self, ttype: &TokenType) -> bool {
